@@ -2,7 +2,7 @@
    Print Assumptions.  Costs are integers (dyadic floats scaled by 2^30; 2^-26 is 16). *)
 From Coq Require Import ZArith List Bool.
 From Centro Require Import Base.Sx Model.Lapjv Spec.Lapjv Proofs.LapjvCert Proofs.LapjvRefute Proofs.LapjvTrack
-  Proofs.LapjvPhases Proofs.LapjvAbstract Proofs.LapjvGrid Proofs.LapjvArr Proofs.LapjvRows Proofs.LapjvTrackCost Proofs.LapjvRt Proofs.LapjvHall Proofs.LapjvBsearch Proofs.LapjvTrackLink Proofs.LapjvArrExt Proofs.LapjvExtModel Proofs.LapjvAugMarks Proofs.LapjvAugFlip Proofs.LapjvAugPred Proofs.LapjvAugRows Proofs.LapjvPerm Proofs.LapjvFixedPerm Proofs.LapjvAugFuel Proofs.LapjvAugPrice Proofs.LapjvAugStamps Proofs.LapjvAugOpt Proofs.LapjvAugDist Proofs.LapjvAugDistHyp.
+  Proofs.LapjvPhases Proofs.LapjvAbstract Proofs.LapjvGrid Proofs.LapjvArr Proofs.LapjvRows Proofs.LapjvTrackCost Proofs.LapjvRt Proofs.LapjvHall Proofs.LapjvBsearch Proofs.LapjvTrackLink Proofs.LapjvArrExt Proofs.LapjvExtModel Proofs.LapjvAugMarks Proofs.LapjvAugFlip Proofs.LapjvAugPred Proofs.LapjvAugRows Proofs.LapjvPerm Proofs.LapjvFixedPerm Proofs.LapjvAugFuel Proofs.LapjvAugPrice Proofs.LapjvAugStamps Proofs.LapjvAugOpt Proofs.LapjvAugDist Proofs.LapjvAugDistHyp Proofs.LapjvAugPriceExt Proofs.LapjvReserved.
 Import ListNotations.
 Open Scope Z_scope.
 
@@ -462,6 +462,51 @@ Theorem C01_lapjv_fixed_optimal_grid : forall n tri g eps epsr k x y u v,
   lapjv Fixed eps epsr k n tri = Some (x, y, u, v) -> Optimal n tri x.
 Proof. exact lapjv_fixed_optimal_grid. Qed.
 Print Assumptions C01_lapjv_fixed_optimal_grid.
+
+(* Round 9, towards optimality WITH single-candidate rows (prices in Fin | -inf).  Two pieces are proved; the chain is not
+   closed: (i) the price-update core lifted from Inv to InvE; (ii) the spec-level half: if the reserved (-inf) block is forced
+   in every perfect matching and the live part has finite duals feasible on live columns and tight on x, x is optimal.
+   Missing: the loop invariant K / aug_loop_dist over InvE, and "the reserved block is forced" (needs the order in which
+   columns were reserved as part of InvE: row y[c_k] lists only c_1..c_k). *)
+Theorem C01_aug_price_slack_ext_partial : forall (n : nat) (rows : list (list (nat * ext))),
+  (forall i j c, In (j, c) (row rows i) -> (j < n)%nat /\ exists z, c = Fin z) ->
+  (forall i, NoDup (map fst (row rows i))) ->
+  forall (r : nat) (x y : list nat) (v d : list ext) (pred ready : list nat) (mu : Z) (j1 : nat) x' y',
+  InvE n rows x y v -> (r < n)%nat -> DistInvE n rows r y v d pred ready mu j1 ->
+  NoDup ready -> (forall j, In j ready -> (j < n)%nat /\ finp v j /\ (exists z, gete d j = Fin z) /\ getn y j n <> n) ->
+  PIh n x' y' None -> length x' = n -> length y' = n ->
+  (forall j i, (j < n)%nat -> getn y' j n = i -> i <> n ->
+     getn y j n = i \/ (getn pred j n = i /\ (In j ready \/ j = j1))) ->
+  (forall j, getn y j n <> n -> getn y' j n <> n) ->
+  InvE n rows x' y' (aug_prices d (Fin mu) ready v).
+Proof. exact aug_price_slack_ext. Qed.
+Print Assumptions C01_aug_price_slack_ext_partial.
+
+Theorem C01_optimal_with_reserved_partial : forall n tri x (dead : nat -> bool) (u v : nat -> Z),
+  PM n tri x ->
+  (forall sigma, PM n tri sigma -> forall i, (i < n)%nat -> dead (col x i) = true -> col sigma i = col x i) ->
+  (forall i j z, (i < n)%nat -> cost tri i j = Some z -> dead (col x i) = false -> dead j = false -> 0 <= z - u i - v j) ->
+  (forall i, (i < n)%nat -> dead (col x i) = false -> costz tri i (col x i) - u i - v (col x i) = 0) ->
+  Optimal n tri x.
+Proof. exact optimal_with_reserved. Qed.
+Print Assumptions C01_optimal_with_reserved_partial.
+
+(* towards "always returns": the cost lookup of a popped (assigned) column never fails ... *)
+Theorem C01_aug_lookup_defined : forall n tri x y v j,
+  (forall t, In t tri -> (t_i t < n)%nat /\ (t_j t < n)%nat) -> NoDup (map fst tri) ->
+  InvE n (rows_of n tri) x y v -> (j < n)%nat -> getn y j n <> n ->
+  exists c, cost_at (rowget (rows_of n tri) (getn y j n)) j = Some c.
+Proof. exact aug_lookup_defined. Qed.
+Print Assumptions C01_aug_lookup_defined.
+
+(* ... but "always returns" is FALSE for the model as defined when the retry decision of augmenting row reduction has
+   eps 0: kernel-evaluated witness (dense 4x4, 2^-30 grid, has a perfect matching) on which the price war outlasts the
+   model's fuel.  So C01_lapjv_fixed_total can only be stated for epsr > 0 (the code's 2^-26) or with an existential fuel;
+   it is not proved; the check evaluates "the Fixed model returns" on every generated case instead. *)
+Theorem C01_lapjv_fixed_eps0_not_total :
+  exists n tri k, wf n tri /\ has_PM n tri /\ lapjv Fixed 0 0 k n tri = None.
+Proof. exact lapjv_fixed_eps0_not_total. Qed.
+Print Assumptions C01_lapjv_fixed_eps0_not_total.
 
 (* completeness of phases 1-3 (every row is pending or assigned) ... *)
 Theorem C01_phase1_comp : forall n tri,
